@@ -260,6 +260,11 @@ def p7(ctx, ss):
             ctx.violation("C02.7", k + " :: what", where(ff, w), f"what is written is `{txt(a)[:100]}`, not the line read from the file")
         else:
             ctx.holds("C02.7", k + " :: what", where(ff, w), "the line read from the file is written unchanged", 1)
+        # every line of the file is looked at
+        it_in = flow.expand(inner.iter)
+        ok_all = isinstance(it_in, ast.Call) and txt(it_in.func) == "__enter__" and not any(isinstance(x, (ast.Break,)) for x in ast.walk(inner))
+        (ctx.holds if ok_all else ctx.violation)("C02.7", k + " :: all-lines", where(ff, inner),
+                                                 "the per-line loop runs over the whole open file" if ok_all else f"the per-line loop runs over `{txt(it_in)[:80]}`: lines of the input files are skipped")
         conds = [c for c in guards.path_conditions(ff.node, st, stop_at=inner) if c[0] == "if"]
 
         def starts(e, word):
@@ -349,6 +354,13 @@ def p8(ctx, ss):
         # read() needs the rewind
         seeks = [c for c in pf.calls_in(ff.node) if isinstance(c.func, ast.Attribute) and c.func.attr == "seek"]
         ok = bool(seeks) and flow.cfg.dominates(flow.cfg.node_of(stmt_of(ff, seeks[0])), flow.cfg.node_of(sts[0]))
+    # a stream is only ever rewound to its very beginning
+    for q in ("DecFileParser.__init__", "DecFileParser.from_string"):
+        gq, _ = fn(ss, DEC, q)
+        for c in [c for c in pf.calls_in(gq.node) if isinstance(c.func, ast.Attribute) and c.func.attr == "seek"]:
+            okz = len(c.args) == 1 and isinstance(c.args[0], ast.Constant) and c.args[0].value == 0
+            (ctx.holds if okz else ctx.violation)("C02.8", ckey(gq, None, "seek0"), where(gq, c), "the stream is rewound to position 0" if okz
+                                                  else f"`{txt(c)}` positions the stream after the beginning: the first character(s) of the input are not parsed")
     (ctx.holds if ok else ctx.violation)("C02.8", ckey(ff, None, "stream"), where(ff, ff.node),
                                           "__init__ stores the whole content of the stream the lines were written to" if ok
                                           else "__init__ does not store the whole (rewound) stream content")
